@@ -51,6 +51,8 @@ class VM:
             return "(%s %s)" % (k, hx(self.s))
         if k in ("transparent", "disabled", "default"):
             return k
+        if k == "raw":
+            return ""          # an attribute strum does not read (#[doc(hidden)], #[allow(..)], ..): invisible to the model
         if k == "aci":
             return "(aci %d)" % (1 if self.b else 0)
         if k == "props":
@@ -106,6 +108,7 @@ TRANSPARENT = VM("transparent")
 DISABLED = VM("disabled")
 DEFAULT = VM("default")
 def props(kv): return VM("props", props=kv)
+def raw(s): return VM("raw", s)      # e.g. raw("doc(hidden)"), raw("doc(alias = \"x\")"), raw("allow(dead_code)")
 
 
 # ---------------------------------------------------------------- enum-level metas
@@ -200,7 +203,7 @@ class Variant:
         else:
             fs = "(%s %s)" % (self.kind, " ".join(f.sexp() for f in self.fields)) if self.fields else "(%s)" % self.kind
         return "(v %s %s (metas %s) (discr %s) (dmetas %s))" % (
-            hx(self.ident), fs, " ".join(m.sexp() for m in self.metas),
+            hx(self.ident), fs, " ".join(m.sexp() for m in self.metas if m.kind != "raw"),
             "none" if self.discr is None else str(self.discr),
             " ".join(m.sexp() for m in self.dmetas))
 
@@ -255,11 +258,11 @@ def render_variant_attrs(v: Variant, indent="    ") -> str:
     run = []
     runs = []
     for m in v.metas:
-        if m.kind == "doc":
+        if m.kind in ("doc", "raw"):
             if run:
                 runs.append(("strum", run))
                 run = []
-            runs.append(("doc", m))
+            runs.append((m.kind, m))
         else:
             run.append(m)
     if run:
@@ -268,6 +271,8 @@ def render_variant_attrs(v: Variant, indent="    ") -> str:
     for kind, payload in runs:
         if kind == "doc":
             lines.append("%s#[doc = %s]" % (indent, rust_str(payload.s)))
+        elif kind == "raw":
+            lines.append("%s#[%s]" % (indent, payload.s))
         else:
             for g in split_groups(payload, gi):
                 lines.append("%s#[strum(%s)]" % (indent, ", ".join(m.rust() for m in g)))
